@@ -22,6 +22,7 @@ Tails(ib, fol) ==
   IN IF h.ok /\ h.mt \in {2, 3} /\ IsSmall(h.arg) /\ SmallVal(h.arg) <= 300
      THEN LET L == SmallVal(h.arg) IN
           { A(L), A(L + 1) } \cup (IF L > 0 THEN { A(L - 1), A(L - 1) \o <<200>>, A(L - 1) \o <<200, 97>> } ELSE {})
+             \cup (IF L >= 3 THEN { A(L - 3) \o <<239, 191, 189>>, <<239, 191, 189>> \o A(L - 3) } ELSE {})      \* U+FFFD is a valid character
      ELSE { <<>>, <<97, 97>> } \cup (IF Ai(ib) >= 28 THEN { A(Ai(ib)), A(Ai(ib) + 1) } ELSE {})
 StreamsOK == UNION { UNION { { <<ib>> \o fol \o t : t \in Tails(ib, fol) } :
                                fol \in Pat(IF NFollow(Ai(ib)) < 0 THEN 0 ELSE NFollow(Ai(ib))) } : ib \in 0..255 }
